@@ -22,7 +22,7 @@ PROBES = {"C04": ["constructor_args_varied", "nested_param_set", "component_repl
                   "fit_leaves_params_checked", "composite_depth2", "pickle_unfitted",
                   "ordered_set_params", "deep_names_checked", "params_after_update_checked",
                   "second_fit_checked", "failed_fit_checked", "failed_refit_checked",
-                  "keyword_arguments_checked"]}
+                  "keyword_arguments_checked", "separate_instance_checked"]}
 FAULT_KINDS = {"C04": ["clone_midway", "pickle_roundtrip", "set_params_midway"]}
 RULE = {"C04": (
     "for a seeded choice of estimator class (all 76 importable classes), constructor-argument "
@@ -115,6 +115,8 @@ def required_args(name, rng):
             from sktime.forecasting.compose import EnsembleForecaster
             f = EnsembleForecaster([("x", _naive()), ("y", _trend())])
         steps.append(("f", f))
+        if rng.random() < 0.25:
+            return {"steps": tuple(steps)}   # (a tuple of pairs instead of a list)
         return {"steps": steps}
     if name.endswith("TabularRegressionForecaster"):
         return {"estimator": peers.StubRegressor() if not name.startswith("Multioutput") else LinearRegression(),
@@ -125,6 +127,12 @@ def required_args(name, rng):
         return {"forecasters": [("a", _naive()), ("b", _trend())], "final_regressor": LinearRegression()}
     if name == "HCrystalBallForecaster":
         return {"model": LinearRegression()}
+    if name == "ForecastingGridSearchCV" and r < 0.4:
+        from sktime.forecasting.compose import TransformedTargetForecaster
+        return {"forecaster": TransformedTargetForecaster([("d", Detrender()), ("f", _trend())]),
+                "cv": SlidingWindowSplitter(fh=[1], window_length=6, step_length=4),
+                # a component object listed in the grid, with nested parameters of that component
+                "param_grid": {"f": [_naive(strategy="mean")], "f__window_length": [3, 4]}}
     if name == "ForecastingGridSearchCV":
         return {"forecaster": _naive(), "cv": SlidingWindowSplitter(fh=[1], window_length=6, step_length=4),
                 "param_grid": {"strategy": ["last", "mean"]}}
@@ -226,7 +234,8 @@ def generate(prop, rng, tier):
     # (composites have many more configurations worth a scenario than leaf estimators)
     heavy = {"ColumnEnsembleClassifier": 4, "TransformedTargetForecaster": 2, "EnsembleForecaster": 2,
              "StackingForecaster": 2, "MultiplexForecaster": 2, "ForecastingGridSearchCV": 2,
-             "ForecastingRandomizedSearchCV": 2, "FeatureUnion": 2, "OnlineEnsembleForecaster": 2}
+             "ForecastingRandomizedSearchCV": 2, "FeatureUnion": 2, "OnlineEnsembleForecaster": 2,
+             "Detrender": 3, "Imputer": 2, "OptionalPassthrough": 2}
     weighted = [c for c in classes for _ in range(heavy.get(c[1].__name__, 1))]
     q, cls, kind = weighted[rng.randrange(len(weighted))]
     ops = []
@@ -380,6 +389,21 @@ def execute(prop, scen):
         res.digest = "ctor:" + type(e).__name__
         res.probes["not_constructible"] = 1
         return res
+    # a second instance built from equal (but separate) arguments: whatever is done to `est`
+    # must leave it alone, and an instance built later must come out the same
+    def _separate_instance():
+        r2 = random.Random(scen["ctor_seed"])
+        req2 = required_args(name, r2)
+        kw2 = dict(variations(cls, r2))
+        kw2.update(req2)
+        return cls(**{k_: x for k_, x in kw2.items() if k_ in kw})
+    bystander, by0 = None, None
+    try:
+        with peers.paused():
+            bystander = _separate_instance()
+            by0 = {k_: param_digest(x) for k_, x in bystander.get_params(deep=False).items()}
+    except Exception:
+        bystander = None
     expected = {}
     sigp = inspect.signature(cls.__init__).parameters
     for pname, p in sigp.items():
@@ -942,6 +966,22 @@ def execute(prop, scen):
                         break
             res.states.add(short_hash([name, op, fitted]))
     res.digest = digest.hexdigest()[:16]
+    if bystander is not None and not res.violations:
+        res.probe("separate_instance_checked")
+        try:
+            with peers.paused():
+                now_ = {k_: param_digest(x) for k_, x in bystander.get_params(deep=False).items()}
+                late_ = {k_: param_digest(x) for k_, x in _separate_instance().get_params(deep=False).items()}
+        except Exception:
+            now_ = late_ = by0
+        for what, d_ in (("another instance, built before from separate arguments,", now_),
+                         ("an instance built afterwards from the same arguments", late_)):
+            bad = [k_ for k_ in by0 if d_.get(k_) != by0[k_]]
+            if bad:
+                v("instances_share_state", "after the operations on one %s, %s reports parameter %r as %s "
+                  "(it was %s): the instances share a parameter object" % (
+                      name, what, bad[0], _brief(d_.get(bad[0])), _brief(by0[bad[0]])), param=bad[0])
+                break
     # constructor arguments taken through **kwargs are constructor arguments too
     EXTRA_KW = {"PCATransformer": {"whiten": True}}
     if not res.violations and name in EXTRA_KW and any(p_.kind == p_.VAR_KEYWORD for p_ in sigp.values()):
